@@ -250,9 +250,18 @@ FullMerge ==
     /\ bad2' = OK
     /\ UNCHANGED <<mode, allowed, inflight, ever, mine, faulted>>
 
+\* inside a reopen: the drop of the store object has returned, the open follows.  A drop has no result: a call that
+\* failed on its behalf (an fsync at close, say) cannot be reported, and need not be; what the close left on disk is
+\* judged by the reads of the open that follows and of the final restart
+Closed ==
+    /\ Rec[l].ev = "closed"
+    /\ faulted' = [faulted EXCEPT !.inop = FALSE]
+    /\ bad' = OK /\ bad2' = OK
+    /\ UNCHANGED <<mode, allowed, inflight, ever, mine>>
+
 Next == /\ l <= Len(Rec)
         /\ l' = l + 1
-        /\ (Reset \/ Inv \/ Sys \/ Probe \/ Ret \/ Final \/ FullMerge)
+        /\ (Reset \/ Inv \/ Sys \/ Probe \/ Ret \/ Final \/ FullMerge \/ Closed)
 Spec == Init /\ [][Next]_vars
 
 -----------------------------------------------------------------------------------------
